@@ -71,14 +71,12 @@ func (l *Lines) Reload(blockIdx int) {
 	copy(lines, newBlock)
 }
 
-func (l *Lines) reloadRange(from int, to int) {
-	if from > to {
-		from, to = to, from
-	}
-
-	for i := from; i <= to; i++ {
-		l.Reload(i)
-	}
+// reloadAll renders all blocks again. Marks of lines are dropped.
+func (l *Lines) reloadAll() {
+	fresh := newLines(l.code)
+	l.lines = fresh.lines
+	l.blockStarts = fresh.blockStarts
+	l.marks = fresh.marks
 }
 
 func (l *Lines) Move(fromLine int, toLine int) error {
@@ -105,7 +103,9 @@ func (l *Lines) Move(fromLine int, toLine int) error {
 			return fmt.Errorf("block move failed: %w", err)
 		}
 
-		l.reloadRange(fromBlock, toBlock)
+		// Blocks have different lengths, so a block move shifts lines of
+		// all blocks in between as well as their starts.
+		l.reloadAll()
 	} else {
 		if fromBlock != toBlock {
 			return fmt.Errorf("instructions cannot be moved among blocks")
